@@ -277,23 +277,30 @@ Section Run.
           end
       end.
 
-    (* _check_type_param *)
+    (* _check_type_param: per named parameter, the value Python binds to it - by keyword (never for a positional-only parameter:
+       that keyword belongs to **kwargs), else the next positional value (positional parameters only, where positional calls are
+       allowed; whether or not the parameter has a default), else the default *)
+    Definition takes_positional (p : param) : bool := match p_kind p with PosOnly | PosOrKw => true | _ => false end.
+    Definition takes_keyword (p : param) : bool := match p_kind p with PosOnly => false | _ => true end.
     Fixpoint pass_named (ps : list param) (idx : nat) (st : astate) : outcome astate :=
       match ps with
       | [] => Ok {| a_tv := a_tv st; a_cons := a_cons st; a_checked := a_checked st; a_idx := idx |}
       | p :: ps' =>
           let k := p_name p in
-          let st := {| a_tv := a_tv st; a_cons := a_cons st; a_checked := a_checked st ++ [k]; a_idx := a_idx st |} in
+          let st := {| a_tv := a_tv st; a_cons := a_cons st;
+                       a_checked := if takes_keyword p then a_checked st ++ [k] else a_checked st; a_idx := a_idx st |} in
           match p_ann p with
           | None => Raise PTypeCheckC                                   (* "should have a type hint" *)
           | Some a =>
-              match kw_get k (c_kwargs c), p_default p with
-              | Some v, _ => Exn.bind (chk a v (SKw k) st) (pass_named ps' idx)
-              | None, Some d => Exn.bind (chk a d (SDefault k) st) (pass_named ps' idx)
-              | None, None =>
-                  if negb (should_have_kwargs f) && Nat.ltb idx (List.length (wargs c))
+              match (if takes_keyword p then kw_get k (c_kwargs c) else None) with
+              | Some v => Exn.bind (chk a v (SKw k) st) (pass_named ps' idx)
+              | None =>
+                  if takes_positional p && negb (should_have_kwargs f) && Nat.ltb idx (List.length (wargs c))
                   then Exn.bind (chk a (nth idx (wargs c) VNone) (nth idx (wsrc c) (SArg 0)) st) (pass_named ps' (S idx))
-                  else Raise PTypeCheckC                                (* "is unfilled" *)
+                  else match p_default p with
+                       | Some d => Exn.bind (chk a d (SDefault k) st) (pass_named ps' idx)
+                       | None => Raise PTypeCheckC                      (* "is unfilled" *)
+                       end
               end
           end
       end.
